@@ -828,7 +828,7 @@ def suite_mc_timers(ctx, can_run_model):
         feat["timers"] = True
         feat["clock"] = False
         feat["dupl"] = False
-        base = gen_mc.gen_base(rng, feat)
+        base = gen_mc.gen_timer_base(rng) if j % 5 in (1, 3) else gen_mc.gen_base(rng, feat)
         feat_count(ctx, base["feat"])
         st = rng.choice(["BFS", "DFS"])
         sc = gen_mc.variant(base, "tm%d-%d" % (ctx.seed, j), st, rng.choice(["FULL", "PARTIAL"]), debug=0, repeat=1)
@@ -1173,6 +1173,52 @@ def suite_routes(ctx, can_run_model):
                                              "seed": ctx.seed, "suite": "ROUTES", "feat": feat})
 
 
+
+def suite_mc_rand_repeat(ctx, can_run_model):
+    """C01, implementation only: programs that draw ctx.rand() in model checking (the values are a function of the
+    state hash; the model does not compute them).  The same exploration by two ModelChecker instances in one OS
+    process and by a second OS process must hand the processes the same values (recorded in their histories)."""
+    import re as _re
+    rng = random.Random(ctx.seed * 1000003 + 79)
+    n = ctx.scale(80, 3000)
+    scs = []
+    for j in range(n):
+        feat = gen_mc.gen_features(rng)
+        feat.update({"stateless": False, "clock": False})
+        base = gen_mc.gen_base(rng, feat)
+        st = rng.choice(["BFS", "DFS"])
+        vm = rng.choice(["FULL", "PARTIAL"])
+        sc = gen_mc.variant(base, "rr%d-%d" % (ctx.seed, j), st, vm, debug=0, repeat=1)
+        lines = []
+        for l in sc[2]:
+            t = l.split()
+            if t[0] == "PROC":
+                t[5] = str(rng.choice([1, 1, 2]))          # ndraws
+                l = " ".join(t)
+            lines.append(l)
+        scs.append((sc[0], sc[1], lines))
+    impl = vlib.run_impl(scs, "rr-impl", env={"ASV_REPEAT": "1"})
+    impl2 = vlib.run_impl(scs, "rr-impl2")
+    ctx.clauses.update(["C01:rand_in_process_repeat", "C01:rand_cross_process_repeat"])
+    for sc in scs:
+        sid = sc[1]
+        ctx.evaluations += 1
+        il = impl.get(sid, [])
+        nodes = sum(1 for l in sc[2] if l.startswith("NODE "))
+        ctx.count("rand_nodes_%d" % nodes)
+        rd = [l for l in il if l.startswith("REPEAT-DIFFERS")]
+        if rd:
+            ctx.monitor_failures.append({"clause": "C01:rand_in_process_repeat", "detail": rd[0][:400],
+                                         "scenario": vlib.scenario_text(sc), "impl": il[:20], "seed": ctx.seed, "suite": "MCRAND"})
+        d2 = vlib.first_diff(il, impl2.get(sid, []))
+        if d2 is not None:
+            ctx.monitor_failures.append({"clause": "C01:rand_cross_process_repeat",
+                                         "detail": "two OS processes give different results: %s" % (str(d2)[:400],),
+                                         "scenario": vlib.scenario_text(sc), "impl": il[:20], "seed": ctx.seed, "suite": "MCRAND"})
+        nchecks = sum(1 for l in il if l.startswith("CHECK"))
+        if nchecks >= 6 and nodes >= 2:
+            ctx.nontrivial.add(sc_hash(sc))
+
 # ---------------------------------------------------------------------------------------------------
 # PYTWIN suite (C18): the same script with Rust processes (issuing grouped by kind) and with Python processes
 
@@ -1438,8 +1484,9 @@ SIM_ASSUMPTIONS = [
 
 PROPERTIES = {
     "C01": {
-        "suites": [suite_sim_repeat, suite_mc_repeat],
-        "rule": SIM_RULE + " Every script is run by the implementation twice in one OS process (fresh hash maps) and "
+        "suites": [suite_sim_repeat, suite_mc_repeat, suite_mc_rand_repeat],
+        "rule": "MCRAND (implementation only): explorations of programs that draw ctx.rand() in model checking, by two "
+                "ModelChecker instances in one OS process and by a second OS process, must record the same values. " + SIM_RULE + " Every script is run by the implementation twice in one OS process (fresh hash maps) and "
                 "once more in a second OS process: the three histories must be identical, and equal to the model's. "
                 "Model checking: explorations (single and staged, half of them with a crash in the callback on nodes "
                 "hosting several processes) likewise in-process x2 and cross-process. distinct_nontrivial = SIM scripts "
